@@ -550,7 +550,7 @@ void execute_decode(const Plan& plan) {
         else if (s.kind == 7) {
           // rel8 jump: the byte behind the opcode, relative to the end of the instruction
           uint64_t want = base + code.label_offset_from_base(s.label);
-          int64_t dist = int64_t(want) - int64_t(base + sec_off + s.end);
+          int64_t dist = int64_t(want - (base + uint64_t(sec_off) + uint64_t(s.end)));   /* (unsigned: bases around 2^63 are in the plan) */
           SIM_CHECK(dist >= -128 && dist <= 127, "c04:unreachable-target-accepted", "a rel8-only jump at offset %zu onto a label %lld bytes away was resolved and relocated without an error", s.start, (long long)dist);
           SIM_CHECK(img[sec_off + s.start] == 0xEB && int64_t(int8_t(img[sec_off + s.end - 1])) == dist, "c04:wrong-target", "short jmp at offset %zu designates %+d, the label is %+lld bytes behind it", s.start, int(int8_t(img[sec_off + s.end - 1])), (long long)dist);
         }
